@@ -30,6 +30,15 @@ Inductive event :=
 | EvSpawn (p : N) (r : bool)   (* GC_Set registered p, called from a destructor *)
 | EvViol.                      (* ghost: the run left the scope of the model (see spawn_set) *)
 
+(* what a destructor may allocate, after its deletions and in list order: an object that stays
+   (alloc / alloc_root), or a temporary that it deletes at once (`var t = alloc(T); ... del(t);`) *)
+Inductive dact :=
+| DSpawn (p : N) (r : bool)
+| DTemp (p : N) (r : bool).
+
+Definition dact_pair (a : dact) : N * bool :=
+  match a with DSpawn p r => (p, r) | DTemp p r => (p, r) end.
+
 (* ------------------------------------------------------------------ specification *)
 (* the set of (address, root flag) that are "allocated and neither deleted nor reclaimed"
    according to a log (head = most recent event) *)
@@ -124,7 +133,7 @@ Section Registry.
   Variable primes : list N.
   Variables num den : N.
   Variable owns : N -> list N.             (* what the destructor of an object deletes *)
-  Variable spawns : N -> list (N * bool).  (* what it allocates afterwards: (address, root flag) *)
+  Variable spawns : N -> list dact.        (* what it allocates afterwards, in order *)
   (* shape of the pending-list handling (tools/genx_gcreg.py reads it off the source):
      rem_fin    : GC_Rem_Ptr finalises an object it finds in the pending list and returns
      null_first : GC_Sweep's finaliser loop clears the pending slot before finalising it *)
@@ -206,10 +215,31 @@ Section Registry.
     | _ => None
     end.
 
+  (* a temporary inside a destructor: allocated (GC_Set as above), then deleted (GC_Rem) if the
+     allocation registered it.  Its address may be one that was finalised and released earlier
+     in the same sweep (legitimate re-use by the allocator).  Only temporaries whose own
+     destructor does nothing are modelled; others are flagged. *)
+  Definition temp_set (rem : gc -> N -> option gc) (g : gc) (pr : N * bool) : option gc :=
+    match owns (fst pr), spawns (fst pr) with
+    | [], [] =>
+      match spawn_set g pr with
+      | None => None
+      | Some g1 =>
+        if is_reg (slots g1) (fst pr) && negb (is_reg (slots g) (fst pr)) then rem g1 (fst pr) else Some g1
+      end
+    | _, _ => Some (log g EvViol)
+    end.
+
+  Definition act_set (rem : gc -> N -> option gc) (g : gc) (a : dact) : option gc :=
+    match a with
+    | DSpawn p r => spawn_set g (p, r)
+    | DTemp p r => temp_set rem g (p, r)
+    end.
+
   (* dealloc(destruct(q)): the destructor hands every object it owns to `del`, i.e. GC_Rem,
-     then allocates what it spawns *)
+     then allocates what it spawns (temporaries are deleted again at once) *)
   Definition finalise_with (rem : gc -> N -> option gc) (g : gc) (q : N) : option gc :=
-    fold_left (fun og pr => match og with Some g1 => spawn_set g1 pr | None => None end) (spawns q)
+    fold_left (fun og a => match og with Some g1 => act_set rem g1 a | None => None end) (spawns q)
       (fold_left (fun og t => match og with Some g1 => rem g1 t | None => None end)
                  (owns q) (Some (log g (EvFin q)))).
 
